@@ -113,3 +113,49 @@ def resolve_symbol(name):
   for part in attr.split('.'):
     obj = getattr(obj, part)
   return obj
+
+
+class Anything:
+  """Compares equal to everything (like unittest.mock.ANY)."""
+
+  def __eq__(self, other):
+    return True
+
+  def __ne__(self, other):
+    return False
+
+  __hash__ = object.__hash__
+
+  def __repr__(self):
+    return 'Anything()'
+
+
+class _NoTruth:
+
+  def __bool__(self):
+    raise ValueError('truth value of an element-wise comparison is ambiguous')
+
+
+class Arrayish:
+  """Element-wise == without a truth value (like a numpy array)."""
+
+  def __eq__(self, other):
+    return _NoTruth()
+
+  def __ne__(self, other):
+    return _NoTruth()
+
+  __hash__ = object.__hash__
+
+  def __repr__(self):
+    return 'Arrayish()'
+
+
+def make_any():
+  record('make_any', {})
+  return Anything()
+
+
+def make_arr():
+  record('make_arr', {})
+  return Arrayish()
